@@ -768,7 +768,10 @@ class RFFPredictionStrategy(DefaultPredictionStrategy):
             torch.eye(train_factor.size(-1), dtype=train_factor.dtype, device=train_factor.device)
             - (train_factor.transpose(-1, -2) @ train_train_covar.solve(train_factor)) * constant
         )
-        return psd_safe_cholesky(inner_term)
+        res = psd_safe_cholesky(inner_term)
+        if settings.detach_test_caches.on():
+            res = res.detach()
+        return res
 
     def exact_prediction(self, joint_mean, joint_covar):
         # Find the components of the distribution that contain test data
@@ -826,7 +829,10 @@ class SGPRPredictionStrategy(DefaultPredictionStrategy):
         )
         # \sigma^{-2} ( I - \sigma^{-2} R (I + \sigma^{-2} R^T R)^{-1} R^T  )
 
-        return root.transpose(-1, -2) @ (inverse @ root)
+        res = root.transpose(-1, -2) @ (inverse @ root)
+        if settings.detach_test_caches.on():
+            res = res.detach()
+        return res
 
     def get_fantasy_strategy(self, inputs, targets, full_inputs, full_targets, full_output, **kwargs):
         raise NotImplementedError(
